@@ -474,6 +474,13 @@ func checkC16(c *Ctx) {
 	c.checkCalcTransport("O2 calc-transport")
 	c.checkCalculateSize("O3 calculate-size")
 	c.checkMaxPlaceholders("O4 max-placeholder")
+	// the vendored wire protocols and the read transport: writer/reader agreement (c16wire.go)
+	c.checkWirePrimitives("O5 wire-primitives")
+	c.checkZigZag("O6 zigzag")
+	c.checkVarintLoops("O6 varint")
+	c.checkCompactTypeTable("O7 type-codes")
+	c.checkPayloadWhole("O8 payload-whole")
+	c.checkReadTransportWrite("O8 read-transport")
 }
 
 // checkM3ClientSend: sendEmitMetricBatchV2 = WriteMessageBegin(name, ONEWAY, seq) -> args.Write ->
